@@ -109,7 +109,7 @@ Print Assumptions C04_group_by_is_source_filter_buckets_items.
 (* HAVING: the statement SELECT items FROM src [WHERE c] GROUP BY keys HAVING h is the GROUP BY statement with the
    buckets on which h - over the aggregates and key columns of the bucket itself - is not TRUE taken out; the
    remaining buckets keep their order and their rows *)
-Require Import Csvq.Proofs.Having.
+Require Import Csvq.Proofs.Lateral Csvq.Proofs.Having.
 Require Import Csvq.Model.Expr.
 Theorem C04_having_is_group_by_then_filter_of_buckets : forall strict src wh keys his h items,
   eval_query strict (Q (BSelect src wh (Some keys) (Some (his, h)) items false) [] None None) =
@@ -140,6 +140,20 @@ Theorem C04_having_true_everywhere_is_group_by : forall strict his h gs,
   filter_groups strict his h gs = Ok gs.
 Proof. exact filter_groups_all_true. Qed.
 Print Assumptions C04_having_true_everywhere_is_group_by.
+
+(* SELECT DISTINCT .. GROUP BY .. HAVING: DISTINCT is applied to the rows that HAVING left *)
+Theorem C04_distinct_after_having : forall strict src wh keys his h items,
+  eval_query strict (Q (BSelect src wh (Some keys) (Some (his, h)) items true) [] None None) =
+  (do rows <- eval_query strict (Q (BSelect src wh (Some keys) (Some (his, h)) items false) [] None None);
+   Ok (dedup_by (row_key strict) rows [])).
+Proof. exact distinct_having_pipeline. Qed.
+Print Assumptions C04_distinct_after_having.
+
+Theorem C04_having_true_nowhere_is_empty : forall strict his h gs,
+  (forall g, In g gs -> exists x, having_value strict his h g = Ok x /\ is_true x = false) ->
+  filter_groups strict his h gs = Ok [].
+Proof. exact filter_groups_none_true. Qed.
+Print Assumptions C04_having_true_nowhere_is_empty.
 
 (* non-vacuity: k = 1 (two rows), k = 2 (one row), k = NULL (one row); HAVING COUNT( * ) > 1 keeps the first bucket,
    HAVING k IS NULL the last one, HAVING SUM(v) > 'x' (UNKNOWN on every bucket) none *)
